@@ -40,7 +40,10 @@ static inline void producer(int me, int base){
 }
 static inline void consumer1(int me){ CONS(me); }
 static inline void consumer2(int me){ CONS(me); CONS(me); }
-#if NP == 1 && NC == 1
+#ifdef PLAINLOCK   /* plain lock/unlock mixed with the status operations: T0 uses lock/unlock only, T1 the status operations */
+void t0(void){ myth_felock_lock_body(&FE); verif_check(holder == -1, "C09 lock held exclusively"); holder = 0; int s = myth_felock_status_body(&FE); verif_check(s == 0 || s == 1, "C09 status is 0 or 1"); holder = -1; myth_felock_unlock_body(&FE); }
+void t1(void){ PROD(1, 1); }
+#elif NP == 1 && NC == 1
 void t0(void){ producer(0, 0); }
 #if ITEMS == 1
 void t1(void){ consumer1(1); }
@@ -58,9 +61,13 @@ void t2(void){ consumer1(2); }
 #endif
 void verif_final(void){
   if (verif_all_done()) {
+#ifdef PLAINLOCK
+    verif_check(FE.status == 1 && slot == 1, "C09 the status operation published its value");
+#else
     verif_check(n_consumed == NP*ITEMS, "C09 every produced item is consumed");
     verif_check(consumed[1] == 1 && consumed[NP*ITEMS] == 1, "C09 every produced item is consumed exactly once");
     verif_check(FE.status == 0, "C09 mailbox empty at the end");
+#endif
   }
   verif_witness(verif_all_done());
 }
